@@ -103,9 +103,12 @@ void run_case(Ctx &c) {
         if (!node) { c.note("victim-not-in-snapshot:" + v.kind); continue; }
         std::vector<std::string> dead_v; collect_ids(*node, dead_v); std::set<std::string> dead(dead_v.begin(), dead_v.end());
         size_t inlinks = 0; for (auto &l : flatten(t0)) if (l.find("->") != std::string::npos) for (auto &d : dead) if (l.find(d) != std::string::npos) { inlinks++; break; }
+        // the monitor's own HDF5 handles on the victim and its judged descendants, taken before the delete: afterwards they tell how many
+        // hard links HDF5 itself still counts for each object, independent of what nix reports
+        std::map<std::string, hid_t> pre; pre[v.id] = entity_open(v.id); for (auto &did : v.desc_ids) if (!pre.count(did)) pre[did] = entity_open(did);
         int how = (int)r.u(3);
         c.op("delete " + v.kind + " by-" + (how == 0 ? "name" : how == 1 ? "id" : "handle") + " | '" + v.name.substr(0, 30) + "' subtree=" + str(dead.size()) + " inlinks=" + str(inlinks));
-        bool res = false; try { res = v.del(how); } catch (std::exception &e) { c.check(false, "C04/delete-threw/" + v.kind, std::string("delete threw: ") + e.what()); continue; }
+        bool res = false; try { res = v.del(how); } catch (std::exception &e) { c.check(false, "C04/delete-threw/" + v.kind, std::string("delete threw: ") + e.what()); for (auto &kv : pre) if (kv.second >= 0) H5Oclose(kv.second); continue; }
         c.check(res, "C04/delete-returned-false/" + v.kind + "/by-" + (how == 0 ? "name" : how == 1 ? "id" : "handle"), [&] { return "delete of live " + v.kind + " '" + v.name.substr(0, 40) + "' returned false"; });
         Observer o2; ONode t1 = o2.file(g.f);
         ONode expect = t0; remove_ids(expect, dead);
@@ -115,12 +118,14 @@ void run_case(Ctx &c) {
         // Known finding D20: objects that were unlinked earlier (a deleted tag's feature group, a deleted block's arrays, a deleted
         // sub-section with a link to its parent ...) keep their outgoing HDF5 links, so the link count of a deleted entity can stay > 0
         // although nothing reachable from the root refers to it. The monitor separates the two situations by walking the file.
-        auto classify = [&](const std::string &id) { return entity_reachable(id) ? std::string("still-reachable") : std::string("unreachable-but-link-count-positive"); };
+        // A handle that stays valid although HDF5 counts no link at all is a different failure (validity not tied to the link count).
+        auto classify = [&](const std::string &id) { if (entity_reachable(id)) return std::string("still-reachable"); long rc = pre.count(id) ? h5_link_count(pre[id]) : -1; return rc > 0 ? std::string("unreachable-but-link-count-positive") : rc == 0 ? std::string("unreachable-and-link-count-zero") : std::string("unreachable-link-count-unknown"); };
         bool val = true; try { val = v.valid(); } catch (std::exception &) { val = false; }
         if (val) { std::string cls = classify(v.id); c.check(false, "C04/stale-handle-valid/" + cls + (cls == "still-reachable" ? "/" + v.kind : ""), "handle of deleted " + v.kind + " '" + v.name.substr(0, 40) + "' still reports isValidEntity(); an object with its id is " + (cls == "still-reachable" ? "still reachable from the root group" : "not reachable from the root group (only objects unlinked earlier still link to it)")); } else c.check(true, "", "");
         { size_t di = 0; for (auto &dv : v.desc_valid) { bool x = true; try { x = dv(); } catch (std::exception &) { x = false; } std::string did = di < v.desc_ids.size() ? v.desc_ids[di] : ""; di++;
             if (x) { std::string cls = did.empty() ? "still-reachable" : classify(did); c.check(false, "C04/stale-handle-valid/" + cls + (cls == "still-reachable" ? "/descendant-of-" + v.kind : ""), "handle of a sub-section / sub-source of deleted " + v.kind + " still reports isValidEntity()"); } else c.check(true, "", ""); } }
         for (auto &dv : v.desc_logged) { bool x = true; try { x = dv(); } catch (std::exception &) { x = false; } if (x) c.count("observation:content-handle-of-deleted-parent-still-valid"); }
+        for (auto &kv : pre) if (kv.second >= 0) H5Oclose(kv.second);
         c.count("deletions"); c.count("deleted_entities", (long)dead.size()); c.count("inlinks_removed", (long)inlinks); c.count("victim:" + v.kind);
         c.fp(v.kind + str(how) + (inlinks ? "L" : ""));
         if (r.chance(0.3)) { c.op("close+reopen"); g.close(); g.open(FileMode::ReadWrite); Observer o3; ONode t2 = o3.file(g.f); std::string d2 = tree_diff(t1, t2); c.check(d2.empty(), "C04/after-delete-reopen", d2); }
@@ -140,11 +145,13 @@ void run_witness(Ctx &c, const std::string &name) {
     else if (name == "d20-orphan-link-keeps-handle-valid") {
         // tag T has a feature whose data is array A; delete T (its feature group is orphaned, still linking A), then delete A
         Block b = g.f.createBlock("b", "t"); DataArray a = b.createDataArray("A", "t", DataType::Double, NDSize{2}); Tag t = b.createTag("T", "t", {1.0}); t.createFeature(a, LinkType::Untagged);
+        hid_t pre_a = entity_open(a.id());
         c.op("delete tag by-name"); b.deleteTag("T");
         c.op("delete data_array by-name"); bool res = b.deleteDataArray("A");
         c.check(res && !b.hasDataArray("A"), "C04/delete-returned-false/data_array/by-name", "array not deleted");
         std::string aid = a.id();
-        if (a.isValidEntity()) c.check(false, std::string("C04/stale-handle-valid/") + (entity_reachable(aid) ? "still-reachable/data_array" : "unreachable-but-link-count-positive"), "handle of deleted data_array 'A' still reports isValidEntity() (it was feature data of a tag deleted earlier)");
+        if (a.isValidEntity()) c.check(false, std::string("C04/stale-handle-valid/") + (entity_reachable(aid) ? "still-reachable/data_array" : h5_link_count(pre_a) > 0 ? "unreachable-but-link-count-positive" : "unreachable-and-link-count-zero"), "handle of deleted data_array 'A' still reports isValidEntity() (it was feature data of a tag deleted earlier)");
+        if (pre_a >= 0) H5Oclose(pre_a);
     }
     c.nontrivial = true; g.close();
 }
